@@ -370,6 +370,8 @@ def b_range(I, args, kw):
 def b_enumerate(I, args, kw):
     start = kw.get("start", args[1] if len(args) > 1 else 0)
     it = args[0]
+    if isinstance(it, StreamV):
+        return StreamV(f"enumerate({it.name})", lambda I_, i, it=it, start=start: (SV(i.e + start, "int"), it.next_elem(I_, i)))
     if isinstance(it, SymSeq):
         return SymSeq(f"enumerate({it.name})", it.length, lambda i: (SV(i + start, "int"), it.elem(i)), kind="enumerate")
     return [(i + start, x) for i, x in enumerate(I.iterate(it))]
@@ -546,6 +548,8 @@ def b_next(I, args, kw):
         I.raise_("StopIteration")
     if hasattr(g, "sym_next"):
         return g.sym_next(I, args[1:] )
+    if g is None or isinstance(g, (int, str, bytes, list, tuple, dict, float)):
+        I.raise_("TypeError", f"'{type(g).__name__}' object is not an iterator")
     raise Unsupported("next() on " + type(g).__name__)
 
 
